@@ -10,6 +10,7 @@ Decided:
             + stored string offset; row-header skip constant = wire size of the row header; sub-row offset uses the
             stride data_offset + 2
   NAMES     language codes, page file-name templates, header path template with lower-casing, root list path
+  ROOTLIST  the root-list reader's row/field separators, header row, comment rows, LF/CRLF handling (shared with C08)
 Not decided: row lookup over all pages, string-heap contents, numeric cell values (execution).
 """
 import re
@@ -46,6 +47,7 @@ def run(ctx):
     ctx.decided("cell width/sign and produced variant per column type; packed-bool bit = N; big-endian cell reads")
     ctx.decided("column and string seek provenance, row-header skip constant, sub-row stride")
     ctx.decided("language code table, page file-name templates, header path template")
+    ctx.decided("root-list reader separators and line-ending handling (ROOTLIST)")
     ctx.decided("no mutable state other than the cursor flows between cell / sub-row decodes (STATELESS)")
     ctx.not_decided("row lookup across pages; string contents; numeric cell values; u16 overflow of the sub-row offset arithmetic for large sheets")
 
@@ -346,3 +348,12 @@ def run(ctx):
                     d_ = _derive(six, op_) if op_ is not None else None
                     okp = d_ is not None and "calculate_filename" in {c_.split("::")[-1] for c_ in d_.calls} and (pcs[1][0] == "opaque" or pcs[1][2] == (0, 10, False))
         ctx.ob("NAMES", "page-path", okp, f"page paths extracted by read_excel_sheet: {seen}; must be exd/ + EXD::calculate_filename(..)", sb_.file, sb_.line)
+
+    # ---- ROOTLIST: sheets are located through the parsed root list (rows `name,id`, LF or CRLF terminated)
+    er = prog.body("exl::EXL::from_existing")
+    if not er:
+        ctx.fail_closed("ROOTLIST", "exl::EXL::from_existing not found")
+    else:
+        from .c08 import exl_reader
+
+        exl_reader(ctx, er, "ROOTLIST", "ROOTLIST")
